@@ -49,7 +49,9 @@ Class(ev, e) ==
    IF (e.kind = "Other" /\ Contains(e.msg, "is a domain variable and cannot be used inside expression valuation"))
       \/ (e.kind = "UndeclaredVariable" /\ \E i \in 1..Len(ev.decision) : ev.decision[i] = e.msg)
    THEN "a decision variable is accepted where a constant value is required"
-   ELSE IF e.kind = "WrongArgument" /\ e.lhs \in IntegerK /\ e.rhs = "Number"
+   \* (range bounds and array indexes are checked as `numeric` only; the bounds of IntegerRange are the
+   \* position where the checker does demand an integer kind, so a Number arriving there is not this class)
+   ELSE IF e.kind = "WrongArgument" /\ e.lhs \in IntegerK /\ e.rhs = "Number" /\ ~Contains(ev.pos, "IntegerRange(")
    THEN "a non-integer number is accepted where an integer is required"
    ELSE IF e.kind = "Other" /\ Contains(e.msg, "Cannot destructure")
    THEN "a destructuring pattern longer than the elements it binds is accepted"
